@@ -201,14 +201,8 @@ def parseRt : List String → Option RtCase
     pure ⟨tail, fs, ch⟩
   | _ => none
 
-/-- Writer side of `rt`: every frame through `writeFrame`; `(accepted?, wire)`. -/
-def rtWire (fs : List Frame) : List Bool × Bytes :=
-  fs.foldl (fun acc f => match writeFrame f with
-    | none => (acc.1 ++ [false], acc.2)
-    | some w => (acc.1 ++ [true], acc.2 ++ w)) ([], [])
-
 def modelRt (c : RtCase) : List Bool × DecObs :=
-  let w := rtWire c.frames
+  let w := writeAll c.frames
   (w.1, readAll (w.2.length + 1) ⟨chunkBy c.chunks w.2, c.tail⟩)
 
 def accStr (acc : List Bool) : String :=
